@@ -286,7 +286,7 @@ fn prop(c: &Case) -> Verdict {
                             format!("written {}", hex(&text)),
                         );
                     }
-                    Verdict::ok(!want.is_empty(), if text.as_slice() == input { "file-same" } else { "file-normalised" })
+                    Verdict::ok(!text.is_empty(), if text.as_slice() == input { "file-same" } else { "file-normalised" })
                 }
                 Err(_) => Verdict::fail(
                     if sub { "subsection-escape" } else { "file-rt" },
@@ -374,7 +374,7 @@ fn header(rng: &mut Rng, out: &mut Vec<u8>) {
                     8..=9 => out.extend_from_slice(b"\\\""),
                     10 => out.extend_from_slice(&rng.word(&[0xc3, 0xa4, 0xff, 0x80], 1, 2)),
                     _ => {
-                        if rng.chance(1, 2) {
+                        if rng.chance(1, 3) {
                             // the lossy escapes (known class)
                             out.push(b'\\');
                             out.push(*rng.pick(b"cnt0 ]\x00\r"));
@@ -486,7 +486,7 @@ fn config(rng: &mut Rng) -> Vec<u8> {
         crlf: *rng.pick(&[0u64, 0, 0, 8, 8, 3]),
     };
     let mut out = Vec::new();
-    if rng.chance(1, 25) {
+    if rng.chance(1, 40) {
         let b: &[u8] = *rng.pick::<&[u8]>(BOMS);
         out.extend_from_slice(b);
     }
@@ -505,7 +505,10 @@ fn config(rng: &mut Rng) -> Vec<u8> {
             _ => nl(rng, &st, &mut out),
         }
     }
-    let ns = rng.range(0, 3);
+    let mut ns = rng.range(0, 3);
+    if fm == 0 && ns == 0 {
+        ns = 1;
+    }
     for _ in 0..ns {
         if rng.chance(1, 3) {
             ws(rng, 1, 2, &mut out);
@@ -693,13 +696,13 @@ fn gen(rng: &mut Rng, n: usize) -> Vec<Case> {
         }
     }
     while out.len() < n {
-        let t = match rng.below(20) {
-            0..=13 => config(rng),
-            14..=17 => {
+        let t = match rng.below(40) {
+            0..=30 => config(rng),
+            31..=36 => {
                 let c = config(rng);
                 mutate(rng, c)
             }
-            18 => rng.word(b"[]\"\\;#=\n\r \t.ab", 0, 12),
+            37 => rng.word(b"[]\"\\;#=\n\r \t.ab", 0, 12),
             _ => {
                 // two configs glued: headers in the middle of lines
                 let mut a = config(rng);
